@@ -145,6 +145,7 @@ theorem trk_resVals (m : C10St) (o : CObs) (p : Nat × Nat) (h : p ∈ m.resVals
   | cancelCall a => exact h
   | cbinReleased a => exact h
   | probeCtx a i c => exact h
+  | probeProm a _ _ _ => exact h
 
 theorem trk_cancelled (m : C10St) (o : CObs) (a : Nat) (h : a ∈ m.cancelled) : a ∈ (trk m o).cancelled := by
   cases o with
@@ -161,6 +162,7 @@ theorem trk_cancelled (m : C10St) (o : CObs) (a : Nat) (h : a ∈ m.cancelled) :
   | cancelCall a' => exact List.mem_cons_of_mem _ h
   | cbinReleased a' => exact h
   | probeCtx a' i c => exact h
+  | probeProm a' _ _ _ => exact h
 
 theorem opOf_cons_ne (m : C10St) (a a' : Nat) (op : COp) (h : a' ≠ a) :
     opOf { m with ops := (a', op) :: m.ops } a = opOf m a := by
@@ -184,6 +186,7 @@ theorem trk_ops (m : C10St) (o : CObs) (a : Nat) (h : ∀ op, o ≠ .inv a op) :
   | cancelCall a' => rfl
   | cbinReleased a' => rfl
   | probeCtx a' i c => rfl
+  | probeProm a' _ _ _ => rfl
 
 theorem countOf_cons_filter_ne (l : List (Nat × Nat)) (a a' n : Nat) (h : a' ≠ a) :
     countOf ((a', n) :: l.filter (·.1 != a')) a = countOf l a := by
@@ -224,6 +227,7 @@ theorem trk_count (m : C10St) (o : CObs) (a : Nat) (h : ∀ i v, o ≠ .cbin a i
   | cancelCall a' => rfl
   | cbinReleased a' => rfl
   | probeCtx a' i c => rfl
+  | probeProm a' _ _ _ => rfl
 
 /-- an entry of `accCur` after a step comes from an entry before (same call, same index), or is the
 entry just made by `cbin` -/
@@ -264,6 +268,7 @@ theorem trk_accCur_back (m : C10St) (o : CObs) (p : Nat × Nat × Option Nat × 
   | cancelCall a' => exact Or.inl (same h (by intro a i r he; cases he))
   | cbinReleased a' => exact Or.inl (same h (by intro a i r he; cases he))
   | probeCtx a' i c => exact Or.inl (same h (by intro a i r he; cases he))
+  | probeProm a' _ _ _ => exact Or.inl (same h (by intro a i r he; cases he))
 
 theorem trk_accCur_fwd (m : C10St) (o : CObs) (a : Nat) (p0 : Nat × Nat × Option Nat × Bool) (h : p0 ∈ m.accCur)
     (ha : p0.1 = a) (hne : ∀ i r, o ≠ .cbout a i r) : ∃ p ∈ (trk m o).accCur, p.1 = a := by
@@ -292,6 +297,7 @@ theorem trk_accCur_fwd (m : C10St) (o : CObs) (a : Nat) (p0 : Nat × Nat × Opti
   | cancelCall a' => exact ⟨p0, h, ha⟩
   | cbinReleased a' => exact ⟨p0, h, ha⟩
   | probeCtx a' i c => exact ⟨p0, h, ha⟩
+  | probeProm a' _ _ _ => exact ⟨p0, h, ha⟩
 
 /-- a step that does not concern consumer `a` keeps its clauses -/
 theorem ca_frame (m : C10St) (o : CObs) (a : Nat) (c : Con) (h : CA m a c) (h1 : ∀ op, o ≠ .inv a op)
@@ -366,6 +372,7 @@ theorem hook_prom (c : Con) (nonce : Nat) (res : Bool) (v e : Nat) :
   | access => simp only []; split <;> exact Or.inl rfl
   | wait => cases res <;> simp
   | resolve => cases res <;> simp
+  | promise => cases res <;> simp
   | rwr cb =>
     simp only []
     by_cases hw : c.wres = true
@@ -669,6 +676,7 @@ theorem fresh_step (s : CSt) (e : CEv) (s' : CSt) (m : C10St) (h : Fresh s m) (h
       | cancelCall a => exact old hp
       | cbinReleased a => exact old hp
       | probeCtx a i c => exact old hp
+      | probeProm a _ _ _ => exact old hp
 
 theorem ra_step (s : CSt) (e : CEv) (s' : CSt) (m : C10St) (h : RA s m) (hs : cstep s e = some s') :
     RA s' (after m e) := by
@@ -755,6 +763,7 @@ theorem chkValue_ok (s : CSt) (e : CEv) (s' : CSt) (m : C10St) (o : CObs) (h : R
   | cancelCall a => rfl
   | cbinReleased a => rfl
   | probeCtx a i c => rfl
+  | probeProm a _ _ _ => rfl
   | cbin a i v =>
     have he := obs_cbin e a i v hob; subst he
     simp only [cstep] at hs
